@@ -339,4 +339,136 @@ theorem hrun_append_singleton (h : HState α) (ops : List (HOp α)) (op : HOp α
 
 end Staging
 
+/-! ## index maps: `ravel` / `result.shape = self.shape` / `squeeze` -/
+section Index
+
+theorem size_pos_of_inBounds : ∀ (sh idx : List Nat), inBounds sh idx = true → 0 < size sh
+  | [], [], _ => by simp [size]
+  | [], _ :: _, h => by simp [inBounds] at h
+  | _ :: _, [], h => by simp [inBounds] at h
+  | n :: ns, i :: is, h => by
+    simp only [inBounds, Bool.and_eq_true, decide_eq_true_eq] at h
+    have := size_pos_of_inBounds ns is h.2
+    simp only [size]
+    exact Nat.mul_pos (by omega) this
+
+theorem ravelIndex_lt : ∀ (sh idx : List Nat), inBounds sh idx = true →
+    ravelIndex sh idx < size sh
+  | [], [], _ => by simp [size, ravelIndex]
+  | [], _ :: _, h => by simp [inBounds] at h
+  | _ :: _, [], h => by simp [inBounds] at h
+  | n :: ns, i :: is, h => by
+    simp only [inBounds, Bool.and_eq_true, decide_eq_true_eq] at h
+    have ih := ravelIndex_lt ns is h.2
+    simp only [size, ravelIndex]
+    calc i * size ns + ravelIndex ns is < i * size ns + size ns := by omega
+      _ = (i + 1) * size ns := by rw [Nat.succ_mul]
+      _ ≤ n * size ns := Nat.mul_le_mul_right _ h.1
+
+theorem unravel_ravelIndex : ∀ (sh idx : List Nat), inBounds sh idx = true →
+    unravel sh (ravelIndex sh idx) = idx
+  | [], [], _ => by simp [unravel]
+  | [], _ :: _, h => by simp [inBounds] at h
+  | _ :: _, [], h => by simp [inBounds] at h
+  | n :: ns, i :: is, h => by
+    simp only [inBounds, Bool.and_eq_true, decide_eq_true_eq] at h
+    have hr := ravelIndex_lt ns is h.2
+    have ih := unravel_ravelIndex ns is h.2
+    have hp : 0 < size ns := by omega
+    simp only [unravel, ravelIndex]
+    have h1 : (i * size ns + ravelIndex ns is) / size ns = i := by
+      rw [Nat.add_comm, Nat.add_mul_div_right _ _ hp, Nat.div_eq_of_lt hr, Nat.zero_add]
+    have h2 : (i * size ns + ravelIndex ns is) % size ns = ravelIndex ns is := by
+      rw [Nat.add_comm, Nat.add_mul_mod_self_right, Nat.mod_eq_of_lt hr]
+    rw [h1, h2, ih]
+
+theorem inBounds_unravel : ∀ (sh : List Nat) (k : Nat), k < size sh →
+    inBounds sh (unravel sh k) = true
+  | [], _, _ => by simp [unravel, inBounds]
+  | n :: ns, k, h => by
+    simp only [size] at h
+    have hp : 0 < size ns := by
+      rcases Nat.eq_zero_or_pos (size ns) with h0 | h0
+      · rw [h0] at h; omega
+      · exact h0
+    simp only [unravel, inBounds, Bool.and_eq_true, decide_eq_true_eq]
+    refine ⟨?_, inBounds_unravel ns _ (Nat.mod_lt _ hp)⟩
+    rw [Nat.div_lt_iff_lt_mul hp]; exact h
+
+theorem ravelIndex_unravel : ∀ (sh : List Nat) (k : Nat), k < size sh →
+    ravelIndex sh (unravel sh k) = k
+  | [], k, h => by simp [size] at h; simp [ravelIndex, h]
+  | n :: ns, k, h => by
+    simp only [size] at h
+    have hp : 0 < size ns := by
+      rcases Nat.eq_zero_or_pos (size ns) with h0 | h0
+      · rw [h0] at h; omega
+      · exact h0
+    simp only [unravel, ravelIndex]
+    rw [ravelIndex_unravel ns _ (Nat.mod_lt _ hp)]
+    exact Nat.div_add_mod' k (size ns)
+
+theorem size_squeezeShape : ∀ sh : List Nat, size (squeezeShape sh) = size sh
+  | [] => rfl
+  | n :: ns => by
+    simp only [squeezeShape]
+    split
+    · next h => subst h; simp [size, size_squeezeShape ns]
+    · simp [size, size_squeezeShape ns]
+
+theorem inBounds_unsqueeze : ∀ (sh idx' : List Nat), inBounds (squeezeShape sh) idx' = true →
+    inBounds sh (unsqueeze sh idx') = true
+  | [], [], _ => by simp [unsqueeze, inBounds]
+  | [], _ :: _, h => by simp [squeezeShape, inBounds] at h
+  | n :: ns, idx', h => by
+    simp only [squeezeShape] at h
+    simp only [unsqueeze]
+    split
+    · next h1 =>
+      rw [if_pos h1] at h
+      subst h1
+      simp [inBounds, inBounds_unsqueeze ns idx' h]
+    · next h1 =>
+      rw [if_neg h1] at h
+      cases idx' with
+      | nil => simp [inBounds] at h
+      | cons i is =>
+        simp only [inBounds, Bool.and_eq_true, decide_eq_true_eq] at h ⊢
+        exact ⟨h.1, inBounds_unsqueeze ns is h.2⟩
+
+theorem ravelIndex_unsqueeze : ∀ (sh idx' : List Nat), inBounds (squeezeShape sh) idx' = true →
+    ravelIndex sh (unsqueeze sh idx') = ravelIndex (squeezeShape sh) idx'
+  | [], idx', h => by simp [squeezeShape, ravelIndex]
+  | n :: ns, idx', h => by
+    simp only [squeezeShape] at h ⊢
+    simp only [unsqueeze]
+    split
+    · next h1 =>
+      rw [if_pos h1] at h
+      simp [ravelIndex, ravelIndex_unsqueeze ns idx' h]
+    · next h1 =>
+      rw [if_neg h1] at h
+      cases idx' with
+      | nil => simp [inBounds] at h
+      | cons i is =>
+        simp only [inBounds, Bool.and_eq_true, decide_eq_true_eq] at h
+        simp only [ravelIndex, size_squeezeShape, ravelIndex_unsqueeze ns is h.2]
+
+variable {α : Type} [OfNat α 0]
+
+theorem length_ravelC (v : NdView α) : (ravelC v).length = size v.shape := by
+  simp [ravelC]
+
+theorem length_targetPoints (x y z : NdView α) (hy : y.shape = x.shape) (hz : z.shape = x.shape) :
+    (targetPoints x y z).length = size x.shape := by
+  simp [targetPoints, length_ravelC, hy, hz]
+
+theorem getElem?_targetPoints (x y z : NdView α) (hy : y.shape = x.shape) (hz : z.shape = x.shape)
+    (k : Nat) (hk : k < size x.shape) :
+    (targetPoints x y z)[k]? =
+      some ⟨x.elem (unravel x.shape k), y.elem (unravel x.shape k), z.elem (unravel x.shape k)⟩ := by
+  simp [targetPoints, ravelC, hy, hz, hk, mkPos]
+
+end Index
+
 end PysphVerif.Interp
